@@ -856,6 +856,7 @@ func startGrowthWatch(o *out) {
 
 func engineRapid(cfg config, o *out) {
 	startGrowthWatch(o)
+	rapidGroups(cfg, o)
 	var all []*rschema
 	for _, si := range loadSchemas() {
 		all = append(all, &rschema{si: si, resolver: protoregistry.GlobalTypes})
